@@ -108,8 +108,8 @@ pub fn exec_pro(case: &[u64]) -> L {
                 { let mut s = st.borrow_mut(); s.gets.clear(); s.answers.clear(); s.sent.clear(); s.trace.clear(); }
                 log.borrow_mut().clear();
                 let r = if op[0] == 2 {
-                    let (g, ans) = parse_gres(&op[1..]);
-                    { let mut s = st.borrow_mut(); s.gets.push_back(g); s.answers = ans.iter().cloned().collect(); }
+                    let (gls, ans) = split_lists(&op[2..], op[1] as usize);
+                    { let mut s = st.borrow_mut(); for g in gls { s.gets.push_back(parse_gres(g).0); } s.answers = ans.iter().cloned().collect(); }
                     catch_unwind(AssertUnwindSafe(|| proto.tick()))
                 } else {
                     let (p, ans) = parse_packet(&op[1..]);
@@ -119,6 +119,7 @@ pub fn exec_pro(case: &[u64]) -> L {
                 match r { Ok(r) => show_pret(&r, &mut o), Err(_) => o.push(2) }
                 show_log(&log, &ids, &mut o);
                 show_packets(&st.borrow().sent, &mut o);
+                o.push(st.borrow().gets.len() as u64);
             }
             _ => panic!("harness: bad op"),
         }
@@ -143,10 +144,17 @@ pub fn gen_pro(r: &mut Rng, thorough: bool, cx: &mut Ctx) {
                                let ns = if r.chance(1, 4) { r.range(1, 2) } else { 0 }; b.push(ns);
                                for _ in 0..ns { let a = other_addr(r, own); let a = if own != 0xffff && r.chance(1, 3) { 0xffff } else { a }; let p = small_packet(r, a); show_packet(&p, &mut b); }
                                issued.push(issued.len() as u64); }
-                3 | 4 => { let id = match r.below(4) { 0 => r.below(8), 1 => 1000 + r.below(5), _ => if issued.is_empty() { 0 } else { r.below(issued.len() as u64 + 1) } }; b.extend_from_slice(&[1, id]); }
+                3 | 4 => { let live = if issued.is_empty() { 0 } else { r.below(issued.len() as u64 + 1) };
+                           let id = match r.below(7) { 0 => r.below(8), 1 => 1000 + r.below(5), 2 => live + 32 * r.range(1, 3), 3 => live + (1u64 << r.range(5, 31)), 4 => 0xffff_ffff - r.below(3), _ => live }; b.extend_from_slice(&[1, id & 0xffff_ffff]); }
                 5 | 6 | 7 => { b.push(2);
-                               match r.below(8) { 0 => b.push(1), 1 => { b.push(2); b.push(r.pick(&ERR_CODES)); }
-                                   k => { let a = match k { 2 | 3 => own, 4 => 0xffff, _ => other_addr(r, own) }; b.push(0); let p = small_packet(r, a); show_packet(&p, &mut b); } }
+                               // one to three incoming results are queued; a tick must consume exactly one
+                               let ng = match r.below(4) { 0 => 1, 1 | 2 => 2, _ => 3 }; b.push(ng);
+                               for _ in 0..ng {
+                                   let mut g: L = vec![];
+                                   match r.below(8) { 0 => g.push(1), 1 => { g.push(2); g.push(r.pick(&ERR_CODES)); }
+                                       k => { let a = match k { 2 | 3 => own, 4 => 0xffff, _ => other_addr(r, own) }; g.push(0); let p = small_packet(r, a); show_packet(&p, &mut g); } }
+                                   push_list(&mut b, &g);
+                               }
                                for _ in 0..r.below(3) { b.push(if r.chance(1, 4) { r.pick(&ERR_CODES) } else { 0 }); } }
                 _ => { b.push(3); let a = match r.below(4) { 0 | 1 => own, 2 => 0xffff, _ => other_addr(r, own) }; let p = small_packet(r, a); show_packet(&p, &mut b);
                        for _ in 0..r.below(4) { b.push(if r.chance(1, 3) { r.pick(&ERR_CODES) } else { 0 }); } }
